@@ -1,6 +1,7 @@
 import Driver.Cache
 import Driver.TI
 import Driver.TC
+import Driver.Spec
 
 open Osu.Driver
 
@@ -14,6 +15,7 @@ def handle (st : DState) (line : String) : DState × String :=
     ({ st with cache := c }, out)
   | "ti" :: rest => (st, TI.step rest)
   | "tc" :: rest => (st, TC.step rest)
+  | "spec" :: rest => (st, Spec.step rest)
   | _ => (st, "bad-op")
 
 partial def loop (h : IO.FS.Stream) (out : IO.FS.Stream) (st : DState) : IO Unit := do
